@@ -1,6 +1,6 @@
 """C07 — the heap always yields a maximum element (and the tree stays complete)"""
 import vlib
-from areas import heap, treel
+from areas import heap, treel, heapl
 
 
 def explore(chk, c_exe, m_exe):
@@ -98,13 +98,14 @@ def run(chk):
     c_exe, m_exe = vlib.prepare_area(chk, heap, leanchecker=True)
     if c_exe:
         explore(chk, c_exe, m_exe)
+        # pointer level: heap.c with l/r/p links refines the functional model
+        heapl.link_level_run(chk, c_exe)
         if chk.mismatches and not chk.oracle_failures:
             search_near(chk, c_exe, m_exe)
         shortest_first(chk)
+    heapl.tie_run(chk)
     return chk.finish(assumptions=[
         "unsigned-int truncation of slot numbers in cstl_heap_find is not modelled (heaps below 2^31 elements)",
-        "cstl_heap_promote_child is modelled as exchanging the positions of two elements; its six-neighbour "
-        "relinking is covered by the link-checked level-order dump of the harness, not by a theorem",
     ])
 
 
